@@ -51,10 +51,21 @@ PrimType(fam, ts) ==
 
 (* Context: G variables (name -> [t, asg]), ret: return type or ERR (no return allowed),  *)
 (* loop: inside a loop, yl: yield type or ERR.                                              *)
-Ctx(G, ret, loop, yl) == [G |-> G, ret |-> ret, loop |-> loop, yl |-> yl]
+Ctx(G, ret, loop, yl) == [G |-> G, ret |-> ret, loop |-> loop, yl |-> yl, cat |-> 0, pcat |-> 0]
 BindV(C, x, t, asg) == [C EXCEPT !.G = (x :> [t |-> t, asg |-> asg]) @@ C.G]
 
 AllFit(ts, want) == Len(ts) = Len(want) /\ \A i \in 1..Len(ts) : Fits(ts[i], want[i])
+
+FindOp(seq, name) == LET m == {i \in 1..Len(seq) : seq[i].name = name} IN IF m = {} THEN 0 ELSE CHOOSE i \in m : TRUE
+(* the category a domain expression belongs to (0 = ill-formed) *)
+RECURSIVE DomCat(_, _, _)
+DomCat(dx, C, P) ==
+  CASE dx.d = "base"  -> IF dx.i \in 1..Len(P.doms) /\ P.doms[dx.i].pcat = 0 THEN P.doms[dx.i].cat ELSE 0
+    [] dx.d = "app"   -> IF dx.i \in 1..Len(P.doms) /\ P.doms[dx.i].pcat # 0 /\ dx.arg.d \in {"base", "app"}
+                            /\ DomCat(dx.arg, C, P) = P.doms[dx.i].pcat THEN P.doms[dx.i].cat ELSE 0
+    [] dx.d = "self"  -> C.cat
+    [] dx.d = "param" -> C.pcat
+    [] OTHER -> 0
 
 RECURSIVE TypeOf(_, _, _), TypeSeq(_, _, _, _), TypesOf(_, _, _)
 
@@ -132,7 +143,7 @@ TypeOf(x, C, P) ==
          LET C1 == [G |-> [n \in DOMAIN C.G \cup {x.ps[i] : i \in 1..Len(x.ps)} |->
                              IF \E i \in 1..Len(x.ps) : x.ps[i] = n
                              THEN [t |-> x.pts[CHOOSE i \in 1..Len(x.ps) : x.ps[i] = n], asg |-> FALSE] ELSE C.G[n]],
-                    ret |-> x.rt, loop |-> FALSE, yl |-> ERR]
+                    ret |-> x.rt, loop |-> FALSE, yl |-> ERR, cat |-> C.cat, pcat |-> C.pcat]
          IN IF Fits(TypeOf(x.body, C1, P), x.rt) THEN <<"fn", x.pts, x.rt>> ELSE ERR
     [] e = "gen" -> IF Ok(TypeOf(x.body, [C EXCEPT !.ret = ERR, !.loop = FALSE, !.yl = x.et], P)) THEN <<"gen", x.et>> ELSE ERR
     [] e = "yield" -> IF Ok(C.yl) /\ Fits(TypeOf(x.v, C, P), C.yl) THEN UNIT ELSE ERR
@@ -145,6 +156,22 @@ TypeOf(x, C, P) ==
     [] e \in {"break", "iterate"} -> IF C.loop THEN ANY ELSE ERR
     [] e = "ret" -> IF Ok(C.ret) /\ Fits(TypeOf(x.v, C, P), C.ret) THEN ANY ELSE ERR
     [] e = "error" -> ANY
+    \* op(args)$D: D must be a domain of a known category that exports op with these argument types;
+    \* D(A) requires A to satisfy the category of D's parameter
+    [] e = "dcall" ->
+         LET c == DomCat(x.dom, C, P) IN
+         IF c = 0 THEN ERR
+         ELSE LET i == FindOp(P.cats[c].ops, x.op) IN
+              IF i = 0 THEN ERR
+              ELSE IF AllFit(TypesOf(x.args, C, P), P.cats[c].ops[i].pts) THEN P.cats[c].ops[i].rt ELSE ERR
+    \* a macro use is typed as its body with the parameters standing for the argument types
+    [] e = "mac" ->
+         IF x.mi \in 1..Len(P.macs) /\ Len(x.args) = Len(P.macs[x.mi].ps)
+         THEN LET m == P.macs[x.mi] ts == TypesOf(x.args, C, P)
+                  Gm == [n \in {m.ps[i] : i \in 1..Len(m.ps)} |->
+                           [t |-> ts[CHOOSE i \in 1..Len(m.ps) : m.ps[i] = n], asg |-> FALSE]]
+              IN IF \A i \in 1..Len(ts) : Ok(ts[i]) THEN TypeOf(m.body, Ctx(Gm, ERR, FALSE, ERR), P) ELSE ERR
+         ELSE ERR
     [] e = "throw" -> IF \E i \in 1..Len(P.exns) : P.exns[i] = x.exn THEN ANY ELSE ERR
     [] e = "try" ->
          IF Fits(TypeOf(x.body, [C EXCEPT !.loop = FALSE, !.ret = ERR], P), x.t)
@@ -159,7 +186,7 @@ FunOk(f, G, P) ==
   LET C == [G |-> [n \in DOMAIN G \cup {f.ps[i] : i \in 1..Len(f.ps)} |->
                      IF \E i \in 1..Len(f.ps) : f.ps[i] = n
                      THEN [t |-> f.pts[CHOOSE i \in 1..Len(f.ps) : f.ps[i] = n], asg |-> FALSE] ELSE G[n]],
-            ret |-> IF f.rt[1] \in {"gen", "fn"} THEN ERR ELSE f.rt, loop |-> FALSE, yl |-> ERR]
+            ret |-> IF f.rt[1] \in {"gen", "fn"} THEN ERR ELSE f.rt, loop |-> FALSE, yl |-> ERR, cat |-> 0, pcat |-> 0]
   IN Len(f.ps) = Len(f.pts) /\ Fits(TypeOf(f.body, C, P), f.rt)
 
 (* file level: forms in `order`; a global is visible to the forms after its definition; a      *)
@@ -175,8 +202,26 @@ FormsOk(i, G, P) ==
                  /\ FormsOk(i + 1, (d.x :> [t |-> d.t, asg |-> TRUE]) @@ G, P)
             ELSE Ok(TypeOf(d.x, Ctx(G, ERR, FALSE, ERR), P)) /\ FormsOk(i + 1, G, P)
 
+(* categories and domains: a definition must match the signature its category declares, its body  *)
+(* must have the declared result type, and every operation of the category must be defined by    *)
+(* the domain or have a default (a domain that lacks a required export is ill typed)              *)
+OpOk(o, cat, pcat, P) ==
+  LET i == FindOp(P.cats[cat].ops, o.name)
+      C == [G |-> [n \in {o.ps[k] : k \in 1..Len(o.ps)} |-> [t |-> o.pts[CHOOSE k \in 1..Len(o.ps) : o.ps[k] = n], asg |-> FALSE]],
+            ret |-> ERR, loop |-> FALSE, yl |-> ERR, cat |-> cat, pcat |-> pcat]
+  IN i # 0 /\ Len(o.ps) = Len(o.pts) /\ o.pts = P.cats[cat].ops[i].pts /\ o.rt = P.cats[cat].ops[i].rt
+     /\ Fits(TypeOf(o.body, C, P), o.rt)
+DomsOk(P) ==
+  /\ \A c \in 1..Len(P.cats) : \A k \in 1..Len(P.cats[c].defaults) : OpOk(P.cats[c].defaults[k], c, 0, P)
+  /\ \A d \in 1..Len(P.doms) :
+        LET D == P.doms[d] IN
+        /\ D.cat \in 1..Len(P.cats) /\ D.pcat \in 0..Len(P.cats)
+        /\ \A k \in 1..Len(D.ops) : OpOk(D.ops[k], D.cat, D.pcat, P)
+        /\ \A k \in 1..Len(P.cats[D.cat].ops) :
+              FindOp(D.ops, P.cats[D.cat].ops[k].name) # 0 \/ FindOp(P.cats[D.cat].defaults, P.cats[D.cat].ops[k].name) # 0
+
 (* the names of the functions are bound as constants (not assignable) from the start *)
-WellTyped(P) == FormsOk(1, [n \in {P.funs[i].oname : i \in 1..Len(P.funs)} |->
+WellTyped(P) == DomsOk(P) /\ FormsOk(1, [n \in {P.funs[i].oname : i \in 1..Len(P.funs)} |->
                                [t |-> <<"const">>, asg |-> FALSE]], P)
 
 VARIABLE pid
